@@ -529,6 +529,8 @@ class Quantity:
                         ret += " / "
                     else:
                         ret += "1 / "
+                else:
+                    ret += " * "
 
                 if exp != -1:
                     ret += f"({rep}) ** {abs(exp)}"
@@ -570,6 +572,8 @@ class Quantity:
                         ret += "/"
                     else:
                         ret += "1/"
+                else:
+                    ret += "."
 
                 ret += unit
                 if exp != -1:
